@@ -559,3 +559,212 @@ fn check_wire_apps(m: &mut Mon, json: &Value, apps: &[AppSnap], expect_ping: boo
         m.judge("c09-wire-cohort-and-ping", ok, "", || format!("request at seq {}: {}", seq, why));
     }
 }
+
+// ---------------------------------------------------------------------------------------------
+// C07 (log order): a changed poll interval is announced and committed before the flow continues
+
+pub fn mon_c07_order(log: &[Rec], f: &Flow, m: &mut Mon) {
+    // model poll before/after each authenticated response: replay the same rule as the flow model
+    let mut poll: Option<u128> = f.checks.first().map(|c| c.before.poll_ns).or_else(|| f.nexts.first().map(|n| n.model.poll_ns)).unwrap_or(None);
+    let mut restarts = f.restarts.iter();
+    let mut next_restart = restarts.next();
+    for (i, r) in log.iter().enumerate() {
+        if let Some((seq, committed)) = next_restart {
+            if r.seq >= *seq {
+                poll = decode_book(committed).2;
+                next_restart = restarts.next();
+            }
+        }
+        let Ev::HttpResp { delivered, .. } = &r.ev else { continue };
+        match delivered {
+            Delivered::Reply { authentic: true, headers, .. } => {
+                let new = match retry_after(headers) {
+                    RetryAfter::Is(v) => v,
+                    RetryAfter::DontCare => {
+                        poll = Some(u128::MAX);
+                        continue;
+                    }
+                };
+                let changed = poll != new && poll != Some(u128::MAX);
+                let was_unknown = poll == Some(u128::MAX);
+                poll = new;
+                if was_unknown || !changed {
+                    if !was_unknown {
+                        // unchanged: nothing has to be announced
+                        m.hit("c07-unchanged-seen");
+                    }
+                    continue;
+                }
+                // scan forward: before the first "flow continues" entry we need the announcement and the commit
+                let mut announced = false;
+                let mut committed = false;
+                let mut offender = None;
+                for x in &log[i + 1..] {
+                    match &x.ev {
+                        Ev::PollStart | Ev::PollEnd | Ev::Metric(_) | Ev::StorageSet { .. } | Ev::StorageRemove { .. } | Ev::StorageGet { .. } => {}
+                        Ev::Taken(EvSnap::Proto(p)) => {
+                            if p.poll_ns == new {
+                                announced = true;
+                            }
+                        }
+                        Ev::Commit { ok: true, snapshot } => {
+                            if decode_book(snapshot).2 == new {
+                                committed = true;
+                            }
+                        }
+                        Ev::Crash { .. } | Ev::Restart | Ev::Note(_) | Ev::GateRelease { .. } | Ev::Clock { .. } | Ev::CtlSend { .. } | Ev::CtlReply { .. } | Ev::HandleDrop { .. } => {
+                            if matches!(x.ev, Ev::Crash { .. } | Ev::Restart) {
+                                offender = Some("crash".to_string());
+                                break;
+                            }
+                        }
+                        other => {
+                            offender = Some(format!("{:?}", other).chars().take(80).collect());
+                            break;
+                        }
+                    }
+                    if announced && committed {
+                        break;
+                    }
+                }
+                if offender.as_deref() == Some("crash") {
+                    continue;
+                }
+                if offender.is_none() && !(announced && committed) {
+                    // log ended before anything else happened: cannot judge
+                    continue;
+                }
+                m.judge("c07-change-announced-and-committed-first", announced && committed, if !announced { "not-announced" } else { "not-committed" }, || {
+                    format!("response at seq {} changed the poll interval to {:?}; announced={} committed={} before the flow continued with {:?}", r.seq, new, announced, committed, offender)
+                });
+            }
+            _ => {}
+        }
+    }
+}
+
+// ---------------------------------------------------------------------------------------------
+// C08: every committed (counter, last contact) pair is one the model held together
+
+pub fn mon_c08_mixture(f: &Flow, m: &mut Mon) {
+    for cm in f.commits.iter().filter(|c| c.ok) {
+        let (failed, lc, _) = decode_book(&cm.snapshot);
+        let ok = f.model_pairs.iter().any(|p| p.0 == failed && p.1 == lc);
+        m.judge("c08-no-mixture", ok, "", || {
+            format!("commit at seq {} holds (counter {}, last contact {:?}), a pair the model never held together; model pairs {:?}", cm.seq, failed, lc, f.model_pairs)
+        });
+    }
+}
+
+// ---------------------------------------------------------------------------------------------
+// C05: policy consent gates every network, install and reboot action
+
+pub fn mon_c05(log: &[Rec], f: &Flow, setup: &Setup, m: &mut Mon) {
+    // (a) every request lies inside an allowed window and carries the parameters of that check
+    if setup.start_mode {
+        m.judge("c05-no-request-outside-check", f.stray_requests.is_empty(), "", || {
+            format!("request outside any allowed check: {:?}", f.stray_requests.iter().map(|r| (r.seq, r.kind)).collect::<Vec<_>>())
+        });
+        for c in &f.checks {
+            let ok = matches!(c.allowed, Some((_, Decision::Ok(_) | Decision::OkDeferred(_), _)));
+            m.judge("c05-check-follows-positive-decision", ok, "", || format!("check #{} started without a positive update_check_allowed answer: {:?}", c.idx, c.allowed));
+        }
+        // a negative decision is followed by no request / check before the next policy question
+        for (k, a) in f.alloweds.iter().enumerate() {
+            if a.5.params().is_none() {
+                let until = f.alloweds.get(k + 1).map(|n| n.0).unwrap_or(u64::MAX);
+                let bad = log.iter().any(|r| r.seq > a.0 && r.seq < until && matches!(r.ev, Ev::HttpReq { .. } | Ev::PlanCreate { .. } | Ev::InstallStart { .. } | Ev::Taken(EvSnap::State(StateSnap::Checking(_)))));
+                m.judge("c05-negative-decision-no-action", !bad, "", || format!("update_check_allowed answered {:?} at seq {} but a check / request followed", a.5, a.0));
+            }
+        }
+    }
+    for c in &f.checks {
+        let p = c.params;
+        m.judge("c05-announced-source", c.announced_on_demand == p.on_demand, "", || format!("check #{} announced on_demand={} but policy returned {:?}", c.idx, c.announced_on_demand, p));
+        for q in c.uc.iter().chain(c.reports.iter()) {
+            let src = q.json.get("request").and_then(|r| r.get("installsource")).and_then(|v| v.as_str()).unwrap_or("");
+            let want_src = if p.on_demand { "ondemand" } else { "scheduledtask" };
+            let inter = q.headers.iter().find(|h| h.0.eq_ignore_ascii_case("x-goog-update-interactivity")).map(|h| String::from_utf8_lossy(&h.1).to_string());
+            let want_inter = if p.on_demand { "fg" } else { "bg" };
+            let kind = if q.kind == ReqKind::UpdateCheck { "update-check" } else { "event-report" };
+            m.judge("c05-request-source", src == want_src && inter.as_deref() == Some(want_inter), kind, || {
+                format!("check #{} {} request at seq {}: installsource={} interactivity={:?}, policy params {:?}", c.idx, kind, q.seq, src, inter, p)
+            });
+            if q.kind == ReqKind::UpdateCheck {
+                let apps = q.json.get("request").and_then(|r| r.get("app")).and_then(|a| a.as_array()).cloned().unwrap_or_default();
+                let ok = apps.iter().all(|a| {
+                    let uc = a.get("updatecheck");
+                    let dis = uc.and_then(|u| u.get("updatedisabled")).and_then(|v| v.as_bool()).unwrap_or(false);
+                    let same = uc.and_then(|u| u.get("sameversionupdate")).and_then(|v| v.as_bool()).unwrap_or(false);
+                    uc.is_some() && dis == p.disable && same == p.same_version
+                });
+                m.judge("c05-updatecheck-flags", ok, "", || format!("check #{} request at seq {}: updatecheck flags differ from policy params {:?}: {}", c.idx, q.seq, p, q.json));
+            }
+        }
+        // (b) the install plan is created with the parameters of the check and installed only after approval
+        if let Some(pl) = &c.plan {
+            m.judge("c05-plan-params", pl.params == p, "", || format!("check #{}: install plan created with {:?}, policy params {:?}", c.idx, pl.params, p));
+        }
+        if let Some(s) = c.install_start {
+            let ok = matches!(c.can_start, Some((q, UpdDec::Ok)) if q < s);
+            m.judge("c05-install-after-approval", ok, "", || format!("check #{}: perform_install at seq {} without prior update_can_start -> Ok ({:?})", c.idx, s, c.can_start));
+        } else if let Some((_, d)) = c.can_start {
+            if d != UpdDec::Ok && c.complete {
+                m.hit("c05-no-install-after-deferral-or-denial");
+            }
+        }
+    }
+    // (c) reboot only after an install with no failed app, reboot_needed = yes, latest reboot_allowed = yes
+    let mut last_allowed: Option<bool> = None;
+    let mut last_install_ok = false;
+    let mut needed = false;
+    for r in log {
+        match &r.ev {
+            Ev::InstallDone { results } => {
+                last_install_ok = !results.iter().any(|x| *x == InstRes::Failed);
+                needed = false;
+                last_allowed = None;
+            }
+            Ev::PolicyRebootNeeded { answer, .. } => needed = *answer,
+            Ev::PolicyRebootAllowed { answer, .. } => last_allowed = Some(*answer),
+            Ev::Taken(EvSnap::State(StateSnap::Checking(_))) => {
+                last_install_ok = false;
+                needed = false;
+                last_allowed = None;
+            }
+            Ev::Restart => {
+                last_install_ok = false;
+                needed = false;
+                last_allowed = None;
+            }
+            Ev::Reboot => {
+                let ok = last_install_ok && needed && last_allowed == Some(true);
+                m.judge("c05-reboot-consent", ok, if !last_install_ok { "after-failed-install" } else if !needed { "not-needed" } else { "not-allowed" }, || {
+                    format!("perform_reboot at seq {}: install without failure={} reboot_needed={} latest reboot_allowed={:?}", r.seq, last_install_ok, needed, last_allowed)
+                });
+            }
+            _ => {}
+        }
+    }
+    // reboot_needed is only asked after an install in which no app failed
+    for c in &f.checks {
+        if let (Some((_, _)), Some((_, res))) = (c.reboot_needed, &c.install_done) {
+            m.judge("c05-reboot-needed-only-after-clean-install", !res.iter().any(|x| *x == InstRes::Failed), "", || format!("check #{}: reboot_needed asked although an app failed", c.idx));
+        }
+    }
+}
+
+/// Invalid app set: the machine never starts — no policy / HTTP / timer / installer call at all.
+pub fn mon_c05_invalid(log: &[Rec], m: &mut Mon) {
+    let bad: Vec<String> = log
+        .iter()
+        .filter(|r| {
+            matches!(
+                r.ev,
+                Ev::PolicyNext { .. } | Ev::PolicyCheckAllowed { .. } | Ev::PolicyCanStart { .. } | Ev::PolicyRebootAllowed { .. } | Ev::PolicyRebootNeeded { .. } | Ev::HttpReq { .. } | Ev::TimerArm { .. } | Ev::PlanCreate { .. } | Ev::InstallStart { .. } | Ev::Reboot
+            )
+        })
+        .map(|r| format!("{:?}", r.ev).chars().take(60).collect())
+        .collect();
+    m.judge("c05-invalid-app-set-never-starts", bad.is_empty(), "", || format!("app set contains an invalid app but the machine acted: {:?}", bad));
+}
